@@ -216,6 +216,7 @@ type vfSim struct {
 	rdBuf   int
 	notes   []string
 	accepted [2]int
+	role     [2]int // 0 default (side 0 client, side 1 server), 1 client, 2 server
 	onRead  func(r *vfReadRec) // called under s.mu
 }
 
@@ -305,6 +306,9 @@ func (s *vfSim) startSide(side int) {
 	}
 	s.rnd.set(s.sc.Cfg[side].TSN, tag)
 	isClient := side == 0 || s.sc.Mode == "cc"
+	if s.role[side] != 0 {
+		isClient = s.role[side] == 1
+	}
 	go func() {
 		var a *Association
 		var err error
@@ -403,7 +407,7 @@ func (s *vfSim) handshake(horizon time.Duration) bool {
 func (s *vfSim) afterEstablished() {
 	s.base = time.Now()
 	for side := 0; side < 2; side++ {
-		if !s.sc.NoAcc[side] {
+		if !s.sc.NoAcc[side] && s.as[side] != nil {
 			side := side
 			go s.acceptLoop(side)
 		}
